@@ -131,6 +131,9 @@ REAL_CASES = [  # (shape, value, conforms?)  — concrete differential against t
     ('Union[int,str]', 'x', True), ('Union[int,str]', [1], False), ('Literal', 'a', True), ('Literal', 'c', False),
     ('Annotated[int]', 5, True), ('Annotated[int]', 'q', False), ('BaseModel', {'x': 3}, True), ('BaseModel', {'x': 'bad'}, False),
     ('TypedDict', {'a': 1}, True), ('TypedDict', {'a': 'no'}, False),
+    # falsy return values are values like any other: checked when they do not conform, kept when they do
+    ('int', '', False), ('str', 0, False), ('str', False, False), ('dict[str,int]', [], False), ('int|None', '', False),
+    ('BaseModel', [], False), ('int', 0, True), ('str', '', True), ('list[int]', [], True), ('dict[str,int]', {}, True),
 ]
 
 
@@ -155,6 +158,37 @@ def t_update_real(ctx):
                       status=r.status, err=repr(r.error)[:200])
         else:
             ctx.check('C12.typed_bad', r.status == 'error' and r.result is None, shape=shape, value=repr(value), status=r.status)
+
+
+def t_update_twins(ctx):
+    """Two different result types that print identically (two runtime-created models both called 'Item', as plugins / factories /
+    notebooks produce): each result is validated against its own event's declared type, whichever was used first."""
+    from pydantic import create_model
+    models = env.models
+    ItemA = create_model('Item', sku=(str, ...))
+    ItemB = create_model('Item', sku=(str, ...), qty=(int, ...))
+    first = ctx.pick('first', ('A', 'B'))
+    wrap = ctx.pick('wrap', ('list', 'dict', 'optional'))
+    mk = {'list': lambda T: list[T], 'dict': lambda T: dict[str, T], 'optional': lambda T: typing.Optional[T]}[wrap]
+    box = {'list': lambda v: [v], 'dict': lambda v: {'k': v}, 'optional': lambda v: v}[wrap]
+    unbox = {'list': lambda v: v[0], 'dict': lambda v: v['k'], 'optional': lambda v: v}[wrap]
+
+    def run(T, value):
+        r = models.EventResult(event_id='00000000-0000-0000-0000-000000000001', handler_id='1.1', handler_name='h',
+                               eventbus_id='1', eventbus_name='B', result_type=mk(T))
+        r.update(status='started')
+        r.update(result=box(value))
+        return r
+    order = [('A', ItemA), ('B', ItemB)] if first == 'A' else [('B', ItemB), ('A', ItemA)]
+    for tag, T in order:
+        good = {'sku': 'a-1'} if tag == 'A' else {'sku': 'a-1', 'qty': 3}
+        r = run(T, good)
+        ok = r.status == 'completed' and r.error is None and isinstance(unbox(r.result), T)
+        ctx.check('C12.typed_ok', ok, which=tag, first=first, wrap=wrap, status=r.status, got=repr(r.result)[:80], err=repr(r.error)[:120])
+        if tag == 'B':
+            rb = run(T, {'sku': 'b-2'})       # qty missing: does not conform to list[ItemB]
+            ctx.check('C12.typed_bad', rb.status == 'error' and rb.result is None, which=tag, first=first, wrap=wrap, status=rb.status, got=repr(rb.result)[:80])
+    ctx.rec('K', first=first, wrap=wrap)
 
 
 def t_result_type(ctx):
@@ -439,7 +473,7 @@ def _same(a, b):
     return a == b
 
 
-TEMPLATES = {'s1.views_after_run': t_views_after_run, 'k.update': t_update, 'k.update_real': t_update_real, 'k.accessors': t_accessors, 'k.result_type': t_result_type}
+TEMPLATES = {'s1.views_after_run': t_views_after_run, 'k.update_twins': t_update_twins, 'k.update': t_update, 'k.update_real': t_update_real, 'k.accessors': t_accessors, 'k.result_type': t_result_type}
 
 
 def jobs(tier):
@@ -449,6 +483,7 @@ def jobs(tier):
                        witnesses=() if shape == 'none' else ('validator accepted', 'validator rejected')))
     for i in range(len(REAL_CASES)):
         out.append(Job('C12', 'k.update_real', t_update_real, dict(case=i)))
+    out.append(Job('C12', 'k.update_twins', t_update_twins, {}))
     out.append(Job('C12', 'k.result_type', t_result_type, dict(all_orders=(tier == 'thorough'))))
     for par in (True, False):
         for kind in ('scalar', 'dict', 'list'):
